@@ -508,42 +508,6 @@ theorem C05_no_overflow :
 
 /-! ### SGR selects exactly the requested attributes -/
 
-/-- the attribute state of a terminal as far as SGR can change it -/
-structure Attr where
-  fg : Option ((Nat × Nat × Nat) ⊕ Nat)
-  bg : Option ((Nat × Nat × Nat) ⊕ Nat)
-  ul : Option ((Nat × Nat × Nat) ⊕ Nat)
-  under : Nat
-  bold : Bool
-  italic : Bool
-  blink : Bool
-  reverse : Bool
-  strike : Bool
-  deriving DecidableEq
-
-def Attr.default : Attr := ⟨none, none, none, 0, false, false, false, false, false⟩
-
-/-- ECMA-48 / xterm meaning of one SGR operation -/
-def applySgr (a : Attr) : SgrOp → Attr
-  | .reset => Attr.default
-  | .bold => { a with bold := true }
-  | .italic => { a with italic := true }
-  | .blink => { a with blink := true }
-  | .reverse => { a with reverse := true }
-  | .strike => { a with strike := true }
-  | .normalIntensity => { a with bold := false }
-  | .noItalic => { a with italic := false }
-  | .noBlink => { a with blink := false }
-  | .noStrike => { a with strike := false }
-  | .underline k => { a with under := k }
-  | .fgRgb r g b => { a with fg := some (.inl (r, g, b)) }
-  | .bgRgb r g b => { a with bg := some (.inl (r, g, b)) }
-  | .ulRgb r g b => { a with ul := some (.inl (r, g, b)) }
-  | .fgIdx i => { a with fg := some (.inr i) }
-  | .bgIdx i => { a with bg := some (.inr i) }
-  | .ulIdx i => { a with ul := some (.inr i) }
-  | .unknown _ => a
-
 /-- the attribute state a `Face` asks for in true-colour mode -/
 def attrOfFace (f : Face) : Attr :=
   ⟨f.fg.map fun c => .inl (c.r, c.g, c.b), f.bg.map fun c => .inl (c.r, c.g, c.b), none,
